@@ -721,3 +721,48 @@ def reference_scopes(si: int, route: int, which: int) -> bool:
             ok = False
     V.reached()
     return ok
+
+
+# ---- stored files are input too: whatever JSON a file of the store holds, lookups answer or raise a library error
+FILE_JUNK = ['{"type": "bundle", "id": "bundle--311b2d2d-f010-4473-83ec-1edf84858f4c"}', '{"type": "bundle", "id": "bundle--311b2d2d-f010-4473-83ec-1edf84858f4c", "objects": []}',
+             '{"type": "bundle", "objects": 5}', '{"type": "bundle", "objects": [5]}', '{"type": "bundle", "objects": [{"id": "x"}]}', '{}', '[]', '5', 'null', '"text"', '{"type": 5}',
+             '{"type": "identity"}', '{"id": "identity--311b2d2d-f010-4473-83ec-1edf84858f4c"}', '{"type": "bundle", "spec_version": "2.0", "objects": [{"type": "identity"}]}',
+             'not json', '', '{"type": "identity", "id": "identity--311b2d2d-f010-4473-83ec-1edf84858f4c", "modified": 5}', '[{"type": "identity"}]']
+
+
+def stored_file_junk(ji: int, layout: int, allow: bool) -> bool:
+    """
+    pre: 0 <= ji < len(FILE_JUNK) and 0 <= layout <= 2
+    post: _
+    """
+    ji, layout, allow = pick(ji, len(FILE_JUNK)), pick(layout, 3), pickb(allow)
+    with Native():
+        ok = run_file_junk(ji, layout, allow)
+    V.reached()
+    return ok
+
+
+def run_file_junk(ji, layout, allow):
+    from props import fakefs
+    from stix2.datastore import DataSourceError, filesystem as FSM
+    from stix2.datastore.filters import Filter
+    ident = IDENT["id"]
+    ffs = fakefs.FakeFS()
+    saved = fakefs.install(FSM, ffs)
+    try:
+        path = ["/fs/identity/%s/20200101000000000.json" % ident, "/fs/identity/%s.json" % ident, "/fs/marking-definition/%s.json" % ident.replace("identity", "marking-definition")][layout]
+        ffs.makedirs(path.rsplit("/", 1)[0])
+        ffs.files[path] = FILE_JUNK[ji]
+        src = FSM.FileSystemSource("/fs", allow_custom=allow)
+        target = ident if layout < 2 else ident.replace("identity", "marking-definition")
+        for call in (lambda: src.get(target), lambda: src.all_versions(target), lambda: src.query([]), lambda: src.query([Filter("type", "=", target.split("--")[0])]),
+                     lambda: src.query([Filter("id", "=", target)]), lambda: src.get(target, version="2.1")):
+            try:
+                call()
+            except ALLOWED + (DataSourceError,):
+                pass
+            except Exception:  # noqa: BLE001
+                return False
+        return True
+    finally:
+        FSM.os, FSM.io = saved
